@@ -270,6 +270,10 @@ func addNewAndSwapOldOpt(m *dns.Msg) *dns.OPT {
 		if oldOpt, ok := m.Extra[i].(*dns.OPT); ok {
 			// replace it directly
 			m.Extra[i] = newOpt()
+			// The upper bits of m.Rcode were unpacked from oldOpt's extended
+			// rcode field. They belong to the old opt: do not let Pack() copy
+			// them into the new one.
+			m.Rcode &= 0xF
 			return oldOpt
 		}
 	}
